@@ -607,6 +607,61 @@ def std_summaries():
     P[r'core::slice::<impl \[.*\]>::is_empty'] = vec_is_empty
     P[r'Vec::push'] = vec_push
     P[r'Vec::clear'] = vec_clear
+    # further in-place list operations (positions must be concrete on the path)
+    def _rng(se, l, r):
+        n = len(l)
+        if isinstance(r, dict) and r.get('__ty') == 'RangeFull': return 0, n
+        if isinstance(r, dict) and r.get('__ty') == 'Range': return as_int(se.concretize(r[0])), as_int(se.concretize(r[1]))
+        if isinstance(r, dict) and r.get('__ty') == 'RangeFrom': return as_int(se.concretize(r[0])), n
+        if isinstance(r, dict) and r.get('__ty') == 'RangeTo': return 0, as_int(se.concretize(r[0]))
+        raise Inconclusive('range %r' % (r,))
+    def vec_drain(se, env, pc, v, r):
+        l = the_list(se, env, v); a, b = _rng(se, l, r)
+        if a > b or b > len(l):
+            se.panics.append((list(pc), 'drain range out of bounds (summary)', 'summary')); return []
+        se.store(env, v, l[:a] + l[b:]); return one(env, {'it': l[a:b]})
+    P[r'Vec::drain'] = vec_drain
+    def conc(se, n):
+        c = se.concretize(n)
+        if c is None: raise Inconclusive('symbolic position %s in a list operation' % n)
+        return c
+    P[r'Vec::truncate'] = lambda se, env, pc, v, n: (se.store(env, v, the_list(se, env, v)[:conc(se, n)]), one(env, ()))[1]
+    def vec_insert(se, env, pc, v, i, x):
+        l = the_list(se, env, v); k = conc(se, i)
+        if k > len(l):
+            se.panics.append((list(pc), 'insertion index out of bounds (summary)', 'summary')); return []
+        se.store(env, v, l[:k] + [x] + l[k:]); return one(env, ())
+    P[r'Vec::insert'] = vec_insert
+    def vec_remove(se, env, pc, v, i):
+        l = the_list(se, env, v); k = conc(se, i)
+        if k >= len(l):
+            se.panics.append((list(pc), 'removal index out of bounds (summary)', 'summary')); return []
+        se.store(env, v, l[:k] + l[k + 1:]); return one(env, l[k])
+    P[r'Vec::remove'] = vec_remove
+    def vec_swap_remove(se, env, pc, v, i):
+        l = the_list(se, env, v); k = conc(se, i)
+        if k >= len(l):
+            se.panics.append((list(pc), 'swap_remove index out of bounds (summary)', 'summary')); return []
+        x = l[k]; l2 = list(l); l2[k] = l2[-1]; se.store(env, v, l2[:-1]); return one(env, x)
+    P[r'Vec::swap_remove'] = vec_swap_remove
+    def vec_pop(se, env, pc, v):
+        l = se.deref(env, v)
+        if not isinstance(l, list): raise Inconclusive('pop of %r' % (l,))
+        if not l: return one(env, Enum('None'))
+        se.store(env, v, l[:-1]); return one(env, Enum('Some', (l[-1],)))
+    P[r'Vec::pop'] = vec_pop
+    P[r'core::slice::<impl \[.*\]>::reverse'] = lambda se, env, pc, v: (se.store(env, v, list(reversed(the_list(se, env, v)))), one(env, ()))[1]
+    def vec_split_off(se, env, pc, v, n):
+        l = the_list(se, env, v); k = conc(se, n); se.store(env, v, l[:k]); return one(env, l[k:])
+    P[r'Vec::split_off'] = vec_split_off
+    def vec_extend(se, env, pc, v, src):
+        s_ = se.deref(env, src) if isinstance(src, Ref) else src
+        items = s_['it'] if isinstance(s_, dict) and 'it' in s_ else (s_ if isinstance(s_, list) else None)
+        if items is None: raise Inconclusive('extend with %r' % (s_,))
+        items = [se.deref(env, x) if isinstance(x, Ref) else x for x in items]
+        se.store(env, v, the_list(se, env, v) + list(items)); return one(env, ())
+    P[r'<Vec<(?!u8>).*> as Extend<.*>>::extend'] = vec_extend
+    P[r'Vec::extend_from_slice'] = vec_extend
     P[r'<Vec<.*> as Index(?:Mut)?<.*>>::index(?:_mut)?'] = vec_index
     P[r'<\[.*\] as Index(?:Mut)?<.*>>::index(?:_mut)?'] = vec_index
     P[r'core::slice::<impl \[.*\]>::iter(?:_mut)?'] = slice_iter
